@@ -142,10 +142,14 @@ func init() {
 				e1run("list-tomb-n2-d4", "list", 2, 4, "mid", o, nil, "tomb", 0),
 				e1run("counter-bound-n3-d4", "counter", 3, 4, "wrap", o, nil, "bound", 0),
 				e1run("counter-rich-n2-d5", "counter", 2, 5, "rich", o, nil, "", 0),
+				e1runSP("map-skew-n3-d4-tx", "map", 3, 4, "tx", o, 1, 0, "skew"), // a failed transaction (rollback + replay) between conflicting writes
+				e1runSP("list-skew-n3-d3-tx", "list", 3, 3, "tx", o, 1, 0, "skew"),
 			}
 		} else {
 			p.BudgetS = 3300
 			p.Runs = []Run{
+				e1runSP("map-skew-n3-d5-tx", "map", 3, 5, "tx", o, 1, 600000, "skew"),
+				e1runSP("list-skew-n3-d4-tx", "list", 3, 4, "tx", o, 1, 600000, "skew"),
 				e1run("counter-bound-n3-d5", "counter", 3, 5, "wrap rich", o, nil, "bound", 0),
 				e1run("map-tomb-n3-d5", "map", 3, 5, "", o, nil, "tomb", 600000),
 				e1run("list-tomb-n3-d4", "list", 3, 4, "mid", o, nil, "tomb", 600000),
@@ -285,6 +289,8 @@ func init() {
 				e1runSP("list-tomb-n2-d3", "list", 2, 3, "mid", o, 1, 0, "tomb"),
 				e1runSP("doc-tomb-n2-d3", "doc", 2, 3, "", o, 1, 0, "tomb"),
 				e1runSP("map-tomb-n2-d4", "map", 2, 4, "", o, 1, 0, "tomb"),
+				e1runSP("doc-deep21-n2-d2", "doc", 2, 2, "arr", o, 1, 0, "deep-doc21"), // identifiers (2,10..11) next to (21,0): import must keep them apart
+				e1runSP("list-deep21-n2-d2", "list", 2, 2, "", o, 1, 0, "deep-list21"),
 				e1runSP("list-live-n2-d3-2restores", "list", 2, 3, "", o, 2, 0, "live"), // a restored replica is exported and restored again
 				e1runSP("doc-live-n2-d2-2restores", "doc", 2, 2, "", o, 2, 0, "live"),
 				e1runS("counter-n2-d4-3restores", "counter", 2, 4, "", o, 3, 0),
